@@ -1,12 +1,14 @@
 //! One module per property; `collect` turns a property id into work blocks.
 pub mod common;
 pub mod c01;
+pub mod c02;
 
 use crate::core::{Block, Report};
 
 pub fn collect(prop: &str, blocks: &mut Vec<Block>, setup: &mut Report) {
     match prop {
         "C01" => c01::collect(blocks, setup),
+        "C02" => c02::collect(blocks, setup),
         "list" => {}
         _ => setup.machinery.push(format!("unknown property {prop}")),
     }
